@@ -126,6 +126,8 @@ PROPS = {
     'C16': {'jobs': set_jobs(['set_lock'], 4, 17),
             'mechanisms_required': ['cuckoo.onResizeCall', 'cuckoo.onRelocateRound', 'cuckoo.onInsertResize']},
     'C18': {'jobs': set_jobs(['set_list', 'set_hash', 'set_tree', 'set_lock'], 3, 8, quick_scale=0.4, special=SET_SPECIAL, builds_quick=('dbg',), run_special=False)},
+    'C19': {'jobs': set_jobs(['iter'], 6, 11, asan_scale=0.4),
+            'mechanisms_required': ['feldman.onExpandNodeSuccess']},
     'C20': {'jobs': lambda tier, seed: jobs_C20(tier, seed),
             'rule': 'one evaluation = one single-threaded sequence of API calls (1-200 calls, random over the full alphabet of the adapter; 3 keys and 2000 keys for sets/maps; near-empty and near-full states for bounded containers) on one container variant, '
                     'followed by lookups of every key / a complete drain; every return value (incl. update\'s pair, observed item ids, functor call counts and is-new flags, pop order, extract_min/max order, capacity behaviour) must be exactly what the sequential '
